@@ -6,17 +6,24 @@
 //
 // Events of one trace (all in the order in which they really happened, one goroutine):
 //
-//	reset  {cfg:{n, steps:[{out,ex,fl}], begin, commit, rollback}, src, shape, bfl}
+//	reset  {cfg:{n, steps:[{out,ex,fin,fl}], begin, commit, rollback, cancel}, src, shape, bfl}
 //	begin  {ok}          driver: BeginTx reached the driver (or connecting for it failed)
 //	step   {i}           closure i entered
 //	exec   {i, tx}       driver: statement of closure i executed; tx = on a connection inside the
 //	                     open transaction
 //	end    {i, out}      closure i is about to return nil / return its error / panic / Goexit
-//	commit {ok}          driver: Tx.Commit
-//	rollback {ok}        driver: Tx.Rollback
+//	commit {ok}          driver: Tx.Commit   (asked for by Transact or by a step with fin=commit)
+//	rollback {ok}        driver: Tx.Rollback (asked for by Transact, by a step with fin=rollback, or
+//	                     by database/sql itself after the handle's context was cancelled)
 //	ret    {r:{kind,i}}  Transact returned: nil | step i's error | an error describing step i's
 //	                     panic | begin/commit/rollback sentinel | other | raised (panic escaped)
 //	gone   {}            the calling goroutine ended without Transact returning (Goexit)
+//
+// A step with fin = commit|rollback ends the transaction on the handle it was given (after its
+// statements, before its outcome).  cfg.cancel = k cancels the context the db handle is bound to:
+// 0 before the call, k > 0 inside step k (after its statements and its own fin); the closure then
+// waits until database/sql's rollback has reached the driver (an event of the environment, not an
+// oracle), so the log order is the real order.
 //
 // neptune declares `go 1.19`: panic(nil) keeps its pre-1.21 meaning (recover() returns nil) for a
 // program built at that language level.  Pin it, whatever the harness module's go line says.
@@ -40,6 +47,7 @@ import (
 	"sort"
 	"strings"
 	"sync"
+	"time"
 
 	"github.com/pinealctx/neptune/store/gormx"
 	"github.com/pinealctx/neptune/ulog"
@@ -56,7 +64,9 @@ import (
 type step struct {
 	Out string `json:"out"` // ok | err | panic | pnil | exit
 	Ex  int    `json:"ex"`  // statements executed before the outcome
+	Fin string `json:"fin"` // none | commit | rollback: the step ends the transaction itself
 	Fl  string `json:"fl"`  // flavour (harness only; the spec ignores it)
+	Fl2 string `json:"-"`   // fin flavour: "direct" on the handle | "sess" on a session of it
 }
 
 type plan struct {
@@ -65,14 +75,16 @@ type plan struct {
 	Begin    bool   `json:"begin"`
 	Commit   bool   `json:"commit"`
 	Rollback bool   `json:"rollback"`
+	Cancel   int    `json:"cancel"` // -1 never | 0 before the call | k inside step k
 }
 
 func (p plan) rec() tr.E {
 	st := make([]tr.E, 0, len(p.Steps))
 	for _, s := range p.Steps {
-		st = append(st, tr.E{"out": s.Out, "ex": s.Ex, "fl": s.Fl})
+		st = append(st, tr.E{"out": s.Out, "ex": s.Ex, "fin": s.Fin, "fl": s.Fl})
 	}
-	return tr.E{"n": p.N, "steps": st, "begin": p.Begin, "commit": p.Commit, "rollback": p.Rollback}
+	return tr.E{"n": p.N, "steps": st, "begin": p.Begin, "commit": p.Commit, "rollback": p.Rollback,
+		"cancel": p.Cancel}
 }
 
 // ---------------------------------------------------------------------------- event log
@@ -86,6 +98,18 @@ func (l *evlog) add(e tr.E) {
 	l.mu.Lock()
 	l.evs = append(l.evs, e)
 	l.mu.Unlock()
+}
+
+func (l *evlog) count(ev string) int {
+	l.mu.Lock()
+	defer l.mu.Unlock()
+	n := 0
+	for _, e := range l.evs {
+		if e["ev"] == ev {
+			n++
+		}
+	}
+	return n
 }
 
 // ---------------------------------------------------------------------------- fake driver
@@ -215,12 +239,39 @@ func token(i int, s step) string {
 	return ""
 }
 
-func mkStep(l *evlog, i int, s step) gormx.GormProcFn {
+// over: the transaction of this call has been ended at the database (by whomever).
+func (l *evlog) over() bool { return l.count("commit")+l.count("rollback") > 0 }
+
+func mkStep(l *evlog, i int, s step, cancel func()) gormx.GormProcFn {
 	return func(txn *gorm.DB) error {
 		l.add(tr.E{"ev": "step", "i": i})
 		var xerr error
+		wasOver := l.over()
 		for e := 0; e < s.Ex; e++ {
 			xerr = txn.Exec(fmt.Sprintf("UPDATE t SET v = v + 1 /*S%d*/", i)).Error
+		}
+		// the step ends the transaction itself, on the handle it got or on a session of it
+		var h = txn
+		if s.Fl2 == "sess" {
+			h = txn.Session(&gorm.Session{NewDB: true})
+		}
+		switch s.Fin {
+		case "commit":
+			h.Commit()
+		case "rollback":
+			h.Rollback()
+		}
+		if cancel != nil {
+			alive := !l.over()
+			cancel()
+			if alive { // database/sql rolls back on its own goroutine: wait for it to reach the driver
+				for n := 0; !l.over(); n++ {
+					if n > 200000 {
+						tr.Fatal("step %d: database/sql did not roll back after cancellation", i)
+					}
+					time.Sleep(50 * time.Microsecond)
+				}
+			}
 		}
 		l.add(tr.E{"ev": "end", "i": i, "out": s.Out})
 		switch s.Out {
@@ -229,6 +280,9 @@ func mkStep(l *evlog, i int, s step) gormx.GormProcFn {
 		case "err":
 			switch s.Fl {
 			case "exec":
+				if wasOver { // the statement never reached the driver: the step fails all the same
+					return stepErr{i}
+				}
 				if xerr == nil {
 					tr.Fatal("step %d: planned statement failure did not happen", i)
 				}
@@ -355,6 +409,13 @@ func runOne(w *tr.W, rng *rand.Rand, src string, p plan) {
 		if s.Out == "err" && s.Fl == "exec" && s.Ex == 0 {
 			s.Fl = "plain"
 		}
+		if s.Fin == "" {
+			s.Fin = "none"
+		}
+		s.Fl2 = []string{"direct", "sess"}[rng.Intn(2)]
+	}
+	if p.Cancel > len(p.Steps) || p.Cancel < -1 {
+		tr.Fatal("plan cancels in step %d of %d", p.Cancel, len(p.Steps))
 	}
 	if p.N == 0 && len(p.Steps) > 0 {
 		tr.Fatal("plan with steps but no arguments")
@@ -367,13 +428,21 @@ func runOne(w *tr.W, rng *rand.Rand, src string, p plan) {
 		sc.connectOK = false
 		bfl = "connect"
 	}
+	// the context the db handle is bound to (none at all for most calls that never cancel)
+	ctx, cancel := context.WithCancel(context.Background())
+	defer cancel()
+	withCtx := p.Cancel >= 0 || rng.Intn(4) == 0
 	fns := make([]gormx.GormProcFn, 0, len(p.Steps))
 	for k, s := range p.Steps {
 		sc.execLeft[k+1] = s.Ex
 		if s.Fl == "exec" || s.Fl == "swallow" {
 			sc.execFail[k+1] = true
 		}
-		fns = append(fns, mkStep(l, k+1, s))
+		var cf func()
+		if p.Cancel == k+1 {
+			cf = cancel
+		}
+		fns = append(fns, mkStep(l, k+1, s, cf))
 	}
 	args, shape := group(rng, p.N, fns)
 
@@ -383,6 +452,13 @@ func runOne(w *tr.W, rng *rand.Rand, src string, p plan) {
 		&gorm.Config{DisableAutomaticPing: true, Logger: logger.Discard})
 	if err != nil {
 		tr.Fatal("gorm.Open on the fake driver: %v", err)
+	}
+
+	if withCtx {
+		db = db.WithContext(ctx)
+	}
+	if p.Cancel == 0 {
+		cancel()
 	}
 
 	done := make(chan tr.E, 1)
@@ -401,7 +477,7 @@ func runOne(w *tr.W, rng *rand.Rand, src string, p plan) {
 	}()
 	fin := <-done
 
-	w.Emit(tr.E{"ev": "reset", "cfg": p.rec(), "src": src, "shape": shape, "bfl": bfl})
+	w.Emit(tr.E{"ev": "reset", "cfg": p.rec(), "src": src, "shape": shape, "bfl": bfl, "ctx": withCtx})
 	l.mu.Lock()
 	for _, e := range l.evs {
 		w.Emit(e)
@@ -432,6 +508,9 @@ func readPlan(path string) plan {
 	if first.Cfg.Steps == nil {
 		first.Cfg.Steps = []step{}
 	}
+	if !strings.Contains(sc.Text(), `"cancel"`) {
+		first.Cfg.Cancel = -1
+	}
 	return first.Cfg
 }
 
@@ -440,18 +519,24 @@ var (
 	panicFl = []string{"plain", "perr", "pval", "rt"}
 )
 
+func st(out string, ex int, fl, fin string) step { return step{Out: out, Ex: ex, Fl: fl, Fin: fin} }
+
 // variants of one step for the exhaustive enumeration
 func variants(full bool) []step {
 	v := []step{
-		{"ok", 0, "plain"}, {"ok", 1, "plain"},
-		{"err", 0, "plain"}, {"err", 1, "exec"},
-		{"panic", 1, "plain"}, {"panic", 0, "rt"},
-		{"pnil", 1, "plain"},
-		{"exit", 1, "plain"},
+		st("ok", 0, "plain", "none"), st("ok", 1, "plain", "none"),
+		st("err", 0, "plain", "none"), st("err", 1, "exec", "none"),
+		st("panic", 1, "plain", "none"), st("panic", 0, "rt", "none"),
+		st("pnil", 1, "plain", "none"),
+		st("exit", 1, "plain", "none"),
+		// the step ends the transaction itself
+		st("ok", 0, "plain", "rollback"), st("ok", 1, "plain", "commit"), st("err", 1, "plain", "rollback"),
 	}
 	if full {
-		v = append(v, step{"ok", 1, "swallow"}, step{"err", 1, "wrap"}, step{"panic", 0, "perr"},
-			step{"panic", 1, "pval"}, step{"pnil", 0, "plain"}, step{"exit", 0, "plain"})
+		v = append(v, st("ok", 1, "swallow", "none"), st("err", 1, "wrap", "none"), st("panic", 0, "perr", "none"),
+			st("panic", 1, "pval", "none"), st("pnil", 0, "plain", "none"), st("exit", 0, "plain", "none"),
+			st("ok", 0, "plain", "commit"), st("ok", 1, "plain", "rollback"), st("err", 0, "plain", "commit"),
+			st("panic", 0, "plain", "commit"), st("pnil", 1, "plain", "rollback"), st("exit", 0, "plain", "rollback"))
 	}
 	return v
 }
@@ -473,18 +558,26 @@ func enumerate(w *tr.W, rng *rand.Rand, maxLen int, full bool) int {
 		nargs := 1 + rng.Intn(len(steps)+1)
 		if allok {
 			for _, c := range []bool{true, false} {
-				runOne(w, rng, "enum", plan{nargs, append([]step{}, steps...), true, c, rng.Intn(2) == 0})
+				runOne(w, rng, "enum", plan{nargs, append([]step{}, steps...), true, c, rng.Intn(2) == 0, -1})
 				n++
 			}
 		} else {
 			for _, r := range []bool{true, false} {
-				runOne(w, rng, "enum", plan{nargs, append([]step{}, steps...), true, rng.Intn(2) == 0, r})
+				runOne(w, rng, "enum", plan{nargs, append([]step{}, steps...), true, rng.Intn(2) == 0, r, -1})
 				n++
 			}
 		}
 		if len(steps) <= 1 || rng.Intn(8) == 0 {
-			runOne(w, rng, "enum", plan{nargs, append([]step{}, steps...), false, rng.Intn(2) == 0, rng.Intn(2) == 0})
+			runOne(w, rng, "enum", plan{nargs, append([]step{}, steps...), false, rng.Intn(2) == 0, rng.Intn(2) == 0, -1})
 			n++
+		}
+		// the handle's context is cancelled: before the call, inside each step (short lists: every
+		// point; longer ones: one point now and then)
+		for k := 0; k <= len(steps); k++ {
+			if len(steps) <= 2 || (rng.Intn(3) == 0 && k == 1+rng.Intn(len(steps))) {
+				runOne(w, rng, "enum", plan{nargs, append([]step{}, steps...), true, rng.Intn(4) != 0, rng.Intn(2) == 0, k})
+				n++
+			}
 		}
 	}
 	rec = func(cur []step) {
@@ -497,8 +590,8 @@ func enumerate(w *tr.W, rng *rand.Rand, maxLen int, full bool) int {
 		}
 	}
 	// no arguments at all
-	runOne(w, rng, "enum", plan{0, []step{}, true, true, true})
-	runOne(w, rng, "enum", plan{0, []step{}, false, false, false})
+	runOne(w, rng, "enum", plan{0, []step{}, true, true, true, -1})
+	runOne(w, rng, "enum", plan{0, []step{}, false, false, false, 0})
 	n += 2
 	rec([]step{})
 	return n
@@ -506,22 +599,25 @@ func enumerate(w *tr.W, rng *rand.Rand, maxLen int, full bool) int {
 
 func randStep(rng *rand.Rand, pfail int) step {
 	ex := rng.Intn(3)
+	fin := "none"
+	if rng.Intn(12) == 0 {
+		fin = []string{"commit", "rollback"}[rng.Intn(2)]
+	}
 	if rng.Intn(100) >= pfail {
 		if ex > 0 && rng.Intn(10) == 0 {
-			return step{"ok", ex, "swallow"}
+			return st("ok", ex, "swallow", fin)
 		}
-		return step{"ok", ex, "plain"}
+		return st("ok", ex, "plain", fin)
 	}
 	switch rng.Intn(5) {
 	case 0, 1:
-		fl := errFl[rng.Intn(len(errFl))]
-		return step{"err", ex, fl}
+		return st("err", ex, errFl[rng.Intn(len(errFl))], fin)
 	case 2:
-		return step{"panic", ex, panicFl[rng.Intn(len(panicFl))]}
+		return st("panic", ex, panicFl[rng.Intn(len(panicFl))], fin)
 	case 3:
-		return step{"pnil", ex, "plain"}
+		return st("pnil", ex, "plain", fin)
 	}
-	return step{"exit", ex, "plain"}
+	return st("exit", ex, "plain", fin)
 }
 
 func randPlan(rng *rand.Rand, maxLen int) plan {
@@ -541,15 +637,22 @@ func randPlan(rng *rand.Rand, maxLen int) plan {
 	if n == 0 && m > 0 {
 		n = 1
 	}
-	return plan{n, steps, rng.Intn(8) != 0, rng.Intn(3) != 0, rng.Intn(3) != 0}
+	cancel := -1
+	if rng.Intn(4) == 0 {
+		cancel = rng.Intn(m + 1)
+		if m > 0 && rng.Intn(2) == 0 { // bias: while / after the last step
+			cancel = m
+		}
+	}
+	return plan{n, steps, rng.Intn(8) != 0, rng.Intn(3) != 0, rng.Intn(3) != 0, cancel}
 }
 
 func main() {
 	plans := flag.String("plans", "", "directory of TLC plans")
 	out := flag.String("out", "", "trace file")
 	seed := flag.Int64("seed", 1, "seed")
-	enumLen := flag.Int("enum", 3, "exhaustive enumeration over 8 step variants: maximal number of steps")
-	enumFull := flag.Int("enumfull", 2, "same over all 14 step variants (flavours): maximal number of steps")
+	enumLen := flag.Int("enum", 3, "exhaustive enumeration over 11 step variants (+ cancellation points): maximal number of steps")
+	enumFull := flag.Int("enumfull", 2, "same over all 23 step variants (flavours): maximal number of steps")
 	nrand := flag.Int("rand", 300, "number of random long plans")
 	maxLen := flag.Int("maxlen", 12, "maximal number of steps of a random plan")
 	flag.Parse()
